@@ -37,7 +37,7 @@ PROBES = ["seek_at_loop_boundary", "seek_after_exhaustion", "relative_padding_se
           "op_on_closed_iterator", "terminal_resized_before_relative_padding",
           "loops_completed_without_seek", "from_render_data_constructor",
           "render_data_used_by_an_earlier_iterator", "render_of_next_frame_failed",
-          "postponed_frame_count"]
+          "postponed_frame_count", "arguments_of_a_parent_class"]
 COMPONENTS = {
     "real": ["term_image.render.RenderIterator", "Renderable._init_render_/_get_render_data_",
              "RenderArgs/RenderData", "padding.*"],
@@ -193,9 +193,15 @@ def run(ch, ctx, fault=None):
         postponed = ch.bool("postponed_frame_count", 0.25)
         if postponed:
             ctx.probe("postponed_frame_count")
-        r = SimR(R.FrameCount.INDEFINITE if indefinite else n,
-                 R.FrameDuration.DYNAMIC if dynamic else dur0,
-                 ti.geometry.Size(*size), stream_len=stream_len, postponed=postponed)
+        # (some iterated renderables are of a subclass: SimR's arguments are then arguments
+        # of a parent class, converted on the way in)
+        IterCls = SimR
+        if ch.bool("iterate_a_subclass", 0.3):
+            IterCls = type("SimRSub", (SimR,), {})
+            ctx.probe("arguments_of_a_parent_class")
+        r = IterCls(R.FrameCount.INDEFINITE if indefinite else n,
+                    R.FrameDuration.DYNAMIC if dynamic else dur0,
+                    ti.geometry.Size(*size), stream_len=stream_len, postponed=postponed)
         rtell = 0
         if not indefinite and ch.bool("preseek", 0.3):
             rtell = ch.int("rtell", 0, n - 1)
@@ -366,7 +372,8 @@ def run(ch, ctx, fault=None):
                 c2 = ch.pick("char2", "#@%")
                 sh2 = ch.pick("shift2", (0, 0, -1, -2, 1))
                 if kind == "own":
-                    a = +SimR.SimArgs(c2, sh2)
+                    # (a field value need not be hashable)
+                    a = +SimR.SimArgs(c2, sh2, ch.pick("tag", (None, None, [1], {})))
                 elif kind == "base":
                     a = R.RenderArgs(R.Renderable)
                     c2, sh2 = "#", 0
